@@ -197,7 +197,7 @@ fn check_pair(input: &PairIn, case: &mut Case) -> Result<(), Fail> {
 
 /// values at the edges of the constructors: empty TXT, empty NULL, no params / windows / options, root names
 fn enum_special(_t: Tier, shard: usize, n: usize, f: &mut dyn FnMut(u8) -> bool) {
-    for k in 0..12u8 {
+    for k in 0..15u8 {
         if mine(k as usize, shard, n) && !f(k) {
             return;
         }
@@ -219,6 +219,21 @@ fn check_special(k: &u8, case: &mut Case) -> Result<(), Fail> {
         6 => RData::NULL(99, NULL::new(&[]).unwrap()),
         7 => RData::SVCB(SVCB::new(0, root())),
         8 => RData::NSEC(NSEC { next_name: root(), type_bit_maps: vec![] }),
+        12 => RData::NSEC(NSEC {
+            next_name: Name::new_unchecked("next.local"),
+            type_bit_maps: vec![
+                TypeBitMap { window_block: 5, bitmap: std::borrow::Cow::Borrowed(&[0x40][..]) },
+                TypeBitMap { window_block: 1, bitmap: std::borrow::Cow::Borrowed(&[0x01, 0x02][..]) },
+                TypeBitMap { window_block: 3, bitmap: std::borrow::Cow::Borrowed(&[][..]) },
+            ],
+        }),
+        13 => {
+            let mut s = SVCB::new(1, Name::new_unchecked("svc.local"));
+            s.set_param(65535, &b"x"[..]).unwrap();
+            s.set_param(0, &b""[..]).unwrap();
+            RData::SVCB(s)
+        }
+        14 => RData::OPT(OPT { opt_codes: vec![OPTCode { code: 12, data: std::borrow::Cow::Borrowed(&[0, 0][..]) }], udp_packet_size: 3, version: 200 }),
         9 => RData::OPT(OPT { opt_codes: vec![], udp_packet_size: 0, version: 0 }),
         10 => RData::Empty(simple_dns::TYPE::TXT),
         _ => RData::NS(NS(root())),
@@ -232,6 +247,16 @@ fn check_special(k: &u8, case: &mut Case) -> Result<(), Fail> {
         ensure!(h(other) == h(&r) && h(&other.rdata) == h(&r.rdata), "c16:special-hash", "special value #{}: the {} hashes differently", k, what);
         for compressed in [false, true] {
             ensure!(wire_of_record(other, compressed)? == wire_of_record(&r, compressed)?, "c16:special-bytes", "special value #{}: the {} serialises differently (compressed={})", k, what, compressed);
+        }
+    }
+    // two records holding the same OPT data but a different `class` member: whatever == says, hashing must agree with it
+    if let RData::OPT(o) = &r.rdata {
+        let a = ResourceRecord::new(r.name.clone(), CLASS::IN, 5, RData::OPT(o.clone()));
+        let b = ResourceRecord::new(r.name.clone(), CLASS::CH, 5, RData::OPT(o.clone()));
+        if lib("eq", || a == b)? {
+            ensure!(h(&a) == h(&b), "c16:hash-record", "two OPT records differing only in their class member are == but hash differently");
+            let set: std::collections::HashSet<ResourceRecord> = [a, b].into_iter().collect();
+            ensure!(set.len() == 1, "c16:set", "two equal OPT records occupy {} slots of a HashSet", set.len());
         }
     }
     // the owned copy must stay usable like the original: add a string to both TXT values and compare again
@@ -326,7 +351,7 @@ fn check_inst(i: &Inst, case: &mut Case) -> Result<(), Fail> {
 pub fn def() -> CheckDef {
     CheckDef {
         id: "C16",
-        rule: "proptest: (1) suffix-sharing packets (as C03) built through the public API, serialised plain and compressed and parsed back, giving three versions of every value (built from parts, borrowed from the plain buffer, borrowed from the compressed buffer); each packet/question/record/name/label/RDATA is cloned and converted with into_owned (packets: rebuilt from owned parts) and must be ==, observe equally, hash equally and serialise to identical bytes plain and compressed; the three versions of each record must be pairwise ==, hash-equal and byte-equal. (2) pairs of records differing only in TTL / cache-flush, in the letter case of one owner or RDATA-name label, or in class: whenever == holds (for the record, its name, its labels, its rdata) the hashes must agree and a HashSet must hold one entry. (2b) twelve edge values (empty TXT built five ways, empty NULL, SVCB without params, NSEC without windows, OPT without options, Empty, root names): clone and owned copy equal, hash-equal, byte-equal, also after a further string is added. (3) InstanceInformation built 32 times from the same addresses/ports/attributes in rotated and reversed insertion orders (fresh HashSet seeds each time): equal, equal hashes, one HashSet slot. Non-trivial = a name with >= 2 labels or a variable-length field (instances: >= 2 distinct addresses or ports)",
+        rule: "proptest: (1) suffix-sharing packets (as C03) built through the public API, serialised plain and compressed and parsed back, giving three versions of every value (built from parts, borrowed from the plain buffer, borrowed from the compressed buffer); each packet/question/record/name/label/RDATA is cloned and converted with into_owned (packets: rebuilt from owned parts) and must be ==, observe equally, hash equally and serialise to identical bytes plain and compressed; the three versions of each record must be pairwise ==, hash-equal and byte-equal. (2) pairs of records differing only in TTL / cache-flush, in the letter case of one owner or RDATA-name label, or in class: whenever == holds (for the record, its name, its labels, its rdata) the hashes must agree and a HashSet must hold one entry. (2b) fifteen edge values (incl. an NSEC whose windows are held out of order, SVCB with keys 0 and 65535, OPT records differing only in their class member) (empty TXT built five ways, empty NULL, SVCB without params, NSEC without windows, OPT without options, Empty, root names): clone and owned copy equal, hash-equal, byte-equal, also after a further string is added. (3) InstanceInformation built 32 times from the same addresses/ports/attributes in rotated and reversed insertion orders (fresh HashSet seeds each time): equal, equal hashes, one HashSet slot. Non-trivial = a name with >= 2 labels or a variable-length field (instances: >= 2 distinct addresses or ports)",
         assumptions: vec!["DefaultHasher::new() (fixed keys) for hash comparisons; std's per-HashSet RandomState only influences how quickly an order-dependent Hash is caught, never the verdict on a correct one"],
         sections: vec![
             Box::new(PropSection { name: "copies", rule: "clone / owned / built-vs-parsed", strategy: copies_strategy, cases: (60_000, 600_000), check: check_copies }),
